@@ -39,6 +39,8 @@ fn areas_hash(ax: &Axecutor) -> u64 {
 }
 
 struct Guest {
+    /// reads the status flags (conditional instruction): judged under both flag extremes
+    reads_flags: bool,
     bytes: Vec<u8>,
     /// permissions the explicit memory operand needs (bit mask R=1, W=2); None = conditional
     need_data: Option<u32>,
@@ -126,6 +128,7 @@ fn guest_templates() -> (Vec<Guest>, serde_json::Value) {
         };
         let _ = FlowControl::Next;
         out.push(Guest {
+            reads_flags: i.rflags_read() != 0,
             bytes,
             need_data,
             need_stack,
@@ -232,7 +235,9 @@ fn gen<'a>(guests: &'a [Guest], thorough: bool) -> impl Fn(&mut EnumCtx) + Sync 
                 }
                 matches!(crate::emu::step(&mut ax), StepOut::Ok(_))
             };
+            let flag_states: &[u64] = if g.reads_flags { &[0, 0x8d5] } else { &[0] };
             for mask in 0..8u32 {
+                for fl in flag_states {
                 for which in 0..2 {
                     // which 0: vary the data area; 1: vary the stack area
                     if which == 0 && g.need_data == Some(0) && g.path != "guest-no-access" {
@@ -254,12 +259,13 @@ fn gen<'a>(guests: &'a [Guest], thorough: bool) -> impl Fn(&mut EnumCtx) + Sync 
                     for k in 0..16 {
                         ax.reg_write_64(crate::emu::GPR64[k], g.gpr[k]).unwrap();
                     }
+                    ax.verif_set_rflags(*fl);
                     let before = areas_hash(&ax);
                     let out = crate::emu::step(&mut ax);
                     let need = if which == 0 { g.need_data } else { g.need_stack };
                     let path = if which == 0 { g.path } else if g.need_stack == Some(2) { "stack-store" } else { "stack-load" };
-                    e.outcome(crate::common::fnv64(format!("{gi}/{mask}/{which}/{}", out.class()).as_bytes()));
-                    e.state(20_000 + (gi as u64) * 16 + mask as u64 * 2 + which as u64);
+                    e.outcome(crate::common::fnv64(format!("{gi}/{mask}/{which}/{fl}/{}", out.class()).as_bytes()));
+                    e.state(20_000 + (gi as u64) * 64 + mask as u64 * 4 + which as u64 * 2 + (*fl != 0) as u64);
                     e.count("transitions", 1);
                     let w = || json!({"instruction": g.text, "bytes": crate::common::hex(&g.bytes), "mask": mask_name(mask), "area": if which == 0 { "data" } else { "stack" }});
                     match (need, out) {
@@ -278,6 +284,7 @@ fn gen<'a>(guests: &'a [Guest], thorough: bool) -> impl Fn(&mut EnumCtx) + Sync 
                         }
                         _ => {}
                     }
+                }
                 }
             }
         }
@@ -333,6 +340,9 @@ pub fn run(tier: Tier) -> i32 {
         crash_subject: "perm".into(),
     };
     let g = gen(&guests, tier.is_thorough());
+    if let Some(art) = crate::common::replay_artefact() {
+        return crate::common::finish_replay("C09", &art, &|ws| confirm_enum(&o, &g, ws));
+    }
     let out = run_enum(&o, &g);
     enum_evidence(&mut run, &out, "one case = (permission mask of the operand's area, access path); paths: 12 API accessors, instruction fetch, every canonical memory-touching instruction form of the census (explicit operand and implicit stack access separately), constructor/ELF configurations; required permission per operand from iced OpAccess; states = distinct (path, mask) pairs; distinct_nontrivial = distinct (path, mask, outcome)");
     run.cov("memory_touching_forms", json!(guests.len()));
